@@ -640,3 +640,52 @@ func CompositionCycle(doc map[string]any) bool {
 	}
 	return false
 }
+
+
+// TwinOf returns a copy of a specification with the SAME names everywhere (paths, methods, operation ids,
+// parameters, definitions, properties) and other content below them: every default is replaced by a value of
+// another kind, one property of every second definition is dropped or added, required lists lose their last name.
+// A validator (or the package) which keeps something per name beyond one validation now keeps the twin's.
+func TwinOf(r *lib.Rand, doc map[string]any) map[string]any {
+	t, _ := Clone(doc).(map[string]any)
+	var walk func(v any)
+	walk = func(v any) {
+		switch x := v.(type) {
+		case map[string]any:
+			if d, has := x["default"]; has {
+				switch d.(type) {
+				case string:
+					x["default"] = json.Number("7")
+				default:
+					x["default"] = "twin"
+				}
+			}
+			if req, ok := x["required"].([]any); ok && len(req) > 0 && r.Bool() {
+				x["required"] = req[:len(req)-1]
+			}
+			for _, k := range sortedKeys(x) {
+				walk(x[k])
+			}
+		case []any:
+			for _, e := range x {
+				walk(e)
+			}
+		}
+	}
+	walk(t)
+	if defs, ok := t["definitions"].(map[string]any); ok {
+		for i, dn := range sortedKeys(defs) {
+			d, _ := defs[dn].(map[string]any)
+			props, _ := d["properties"].(map[string]any)
+			if props == nil || i%2 == 1 {
+				continue
+			}
+			if names := sortedKeys(props); len(names) > 1 && r.Bool() {
+				delete(props, names[len(names)-1])
+			} else {
+				props["twinprop"] = map[string]any{"type": "string"}
+			}
+		}
+	}
+	return t
+}
